@@ -943,6 +943,7 @@ package netty
 //@ func (*listener).listen
 //@   event
 //@   requires lsnInv(l)
+//@   may_panic true
 //@   modifies listener.acceptor, listener.options, listener.closed, transport.Options.*
 //@   ensures under_lock: evis(0, "lock l.mutex") && evis(nemitted()-1, "unlock l.mutex") && count("lock l.mutex") == 1 && count("unlock l.mutex") == 1
 //@   ensures closed_listener_never_listens: implies(l.closed || old(chclosed(ctxdone(l.bs.bootstrapOptions.bootstrapCtx))), result2 == ErrServerClosed && count("Factory.Listen") == 0)
